@@ -125,7 +125,7 @@ func (k c20case) cmdText(t c20task, i int, logPath string, tpl bool) string {
 		// a command that prints nothing at all
 		return fmt.Sprintf("printf '%%s\\n' %s.%d >> %s", c20ascii(t.Name), i, logPath)
 	}
-	return fmt.Sprintf("printf '%%s\\n' %s.%d >> %s && printf '%%s\\n' 'O.%s.%d%s \"q\" \\b' && printf '%%s\\n' 'E.%s.%d' >&2", c20ascii(t.Name), i, logPath, c20ascii(t.Name), i, tag, c20ascii(t.Name), i)
+	return fmt.Sprintf("printf '%%s\\n' %s.%d >> %s && printf '%%s\\r\\n' 'O.%s.%d%s \"q\" \\b' && printf '%%s\\n' 'E.%s.%d' >&2", c20ascii(t.Name), i, logPath, c20ascii(t.Name), i, tag, c20ascii(t.Name), i)
 }
 
 // c20ascii: command text must be ASCII, task names need not be.
@@ -311,7 +311,7 @@ func c20Judge(c *core.Ctx, k c20case, res *core.ShardResult) (vs []core.Violatio
 				if v := t.UseVar[i]; v != "" && v != "-" {
 					tag = "." + k.varValue(v)
 				}
-				wantOut := fmt.Sprintf("O.%s.%d%s \"q\" \\b\n", c20ascii(t.Name), i, tag)
+				wantOut := fmt.Sprintf("O.%s.%d%s \"q\" \\b\r\n", c20ascii(t.Name), i, tag)
 				wantErr := fmt.Sprintf("E.%s.%d\n", c20ascii(t.Name), i)
 				if t.UseVar[i] == "-" {
 					wantOut, wantErr = "", ""
